@@ -975,8 +975,17 @@ class Explorer:
                 self.obligations += len(open_)
                 self.discharged += len(open_)
                 return
-        for _, cond, label, detail in open_:
-            self.prove(cond, label, detail)
+        bad = 0
+        for i, (_, cond, label, detail) in enumerate(open_):
+            if bad >= 4:
+                # this path already produced several counterexamples / unknowns: the rest is not asked (each query may run into its
+                # time limit); they are recorded as undecided so that the run cannot pass on their account
+                self.obligations += len(open_) - i
+                self.unknown_obligations.append('%d further obligations of a failing path not asked (first: %s)' % (len(open_) - i, label))
+                break
+            r = self.prove(cond, label, detail)
+            if r is not True:
+                bad += 1
 
     def find(self, cond):
         """A model of  pc /\\ cond  restricted to the declared inputs, or None (unsat / unknown)."""
